@@ -802,6 +802,7 @@ func collectionOf(vm *VM, agg func([]Term, *Env) Term, template, goal, instances
 
 func variant(t1, t2 Term, env *Env) bool {
 	s := map[Variable]Variable{}
+	r := map[Variable]Variable{} // The renaming has to be a bijection. So we keep track of the reverse, too.
 	rest := [][2]Term{
 		{t1, t2},
 	}
@@ -817,8 +818,11 @@ func variant(t1, t2 Term, env *Env) bool {
 					if z != y {
 						return false
 					}
+				} else if _, ok := r[y]; ok {
+					return false
 				} else {
 					s[x] = y
+					r[y] = x
 				}
 			default:
 				return false
